@@ -6,8 +6,9 @@
    the theorems hold for EVERY such table, so the float comparisons of edge lengths are irrelevant. *)
 From Coq Require Import List Arith Bool ZArith QArith.
 Import ListNotations.
-Require Import Model.C12_Refine Model.C12_Geom Model.C13_Adaptive.
-Require Import Proofs.C12_RefineProofs Proofs.C12_GeomProofs Proofs.C13_AdaptiveProofs.
+Require Import Base.C11_Unique Model.C11_Topo Proofs.C11_TopoProofs.
+Require Import Model.C12_Refine Model.C12_Geom Model.C13_Adaptive Model.C12_Global Model.C13_TetLoop.
+Require Import Proofs.C12_RefineProofs Proofs.C12_GeomProofs Proofs.C13_AdaptiveProofs Proofs.C12_GlobalProofs Proofs.C13_TetLoopProofs.
 Require Import Gen.C13Gen Dyn.C13Tie.
 Local Open Scope nat_scope.
 
@@ -104,6 +105,32 @@ Theorem C13_adaptive_conforming :
 Proof. split; [exact traces_ok | exact (traces_agree gen13_tri_rfacets)]. Qed.
 Print Assumptions C13_adaptive_conforming.
 
+(* GLOBAL conformity of the red-green-blue result, with the facet tables of Mesh.build_entities for the re-ordered
+   connectivity (C11): for EVERY marking F (in particular the closure) and EVERY cell k containing facet f = {e0, e1} as its
+   local facet a, the children of k leave on f the two halves {e0, c}, {c, e1} around the node c = node_of F nv f if f is
+   marked and the whole facet {e0, e1} otherwise — a function of f alone, so a facet is split from one side iff it is split
+   from the other and at the same node.  With C13_adaptive_conforming (the class of a cell is determined by which of its
+   facets are marked, each class cuts exactly its marked facets) no hanging node exists anywhere in the mesh. *)
+Theorem C13_global_no_hanging_nodes : forall cells F nv k a,
+  Forall (fun c => NoDup c /\ length c = 3) cells -> k < length cells -> a < length gen13_tri_rfacets ->
+  let tb := c11_tables cells gen13_tri_rfacets in
+  forall e, In e (resolved_pieces gen13_tri_rfacets F nv (cell_ctx tb k) a)
+            <-> In e (facet_trace F nv (tb_facets tb) (nth a (cf (cell_ctx tb k)) 0)).
+Proof. intros cells F nv k a Hc. exact (global_facet_trace cells gen13_tri_rfacets 3 tri13_rf2_ok Hc F nv k a). Qed.
+Print Assumptions C13_global_no_hanging_nodes.
+
+Theorem C13_shared_facet_split_alike : forall cells F nv k1 a1 k2 a2,
+  Forall (fun c => NoDup c /\ length c = 3) cells ->
+  k1 < length cells -> a1 < length gen13_tri_rfacets -> k2 < length cells -> a2 < length gen13_tri_rfacets ->
+  let tb := c11_tables cells gen13_tri_rfacets in
+  nth a1 (cf (cell_ctx tb k1)) 0 = nth a2 (cf (cell_ctx tb k2)) 0 ->
+  forall e, In e (resolved_pieces gen13_tri_rfacets F nv (cell_ctx tb k1) a1)
+            <-> In e (resolved_pieces gen13_tri_rfacets F nv (cell_ctx tb k2) a2).
+Proof.
+  intros cells F nv k1 a1 k2 a2 Hc. exact (shared_facet_same_pieces cells gen13_tri_rfacets 3 tri13_rf2_ok Hc F nv k1 a1 k2 a2).
+Qed.
+Print Assumptions C13_shared_facet_split_alike.
+
 (* the children of every class tile the parent, for every parent geometry: convex weights, non-zero
    determinants det(child) = s det(parent) with sum |s| = 1, pairwise separated interiors *)
 Theorem C13_tri_children_tile_parent : forall b, In b gen_split_blocks ->
@@ -131,6 +158,39 @@ Theorem C13_tet_bisection_tiles_parent_partial :
   all_pairs_ok (fun a b => separable 4 (tetW a) (tetW b)) gen_tet_bisect = true.
 Proof. exact (tet_tiles_sound tetW gen_tet_bisect tet_bisect_ok). Qed.
 Print Assumptions C13_tet_bisection_tiles_parent_partial.
+(* the work-list loop of MeshTet1._adaptive (model corresponded exactly with the real loop on ALL marked subsets of small meshes;
+   the re-ordering by _adaptive_sort_mesh is an arbitrary input).  Invariants of one sweep, for every state, every work list and
+   every re-ordering: one cell is appended per marked cell, it is the second child of the bisection of the re-ordered cell
+   along its edge (0,1); the parent array keeps its old entries and the appended cell inherits the parent of the cell it was cut
+   from (subdomain propagation of fix 4dd9939); old vertices keep index and position and every new node is a midpoint of two
+   old points; the next work list is exactly the set of cells containing both end points of a split edge. *)
+Theorem C13_tet_sweep_invariants : forall tpls st marked perm, length perm = length marked ->
+  let st' := tet_iter tpls st marked perm in
+  length (ts_t st') = length (ts_t st) + length marked /\
+  length (ts_par st') = length (ts_par st) + length marked /\
+  (forall k, (k < length (ts_par st) -> nth k (ts_par st') 0 = nth k (ts_par st) 0) /\
+             (k < length marked -> nth (length (ts_par st) + k) (ts_par st') 0 = nth (nth k marked 0) (ts_par st) 0)) /\
+  firstn (length (ts_p st)) (ts_p st') = ts_p st /\
+  (forall q, In q (skipn (length (ts_p st)) (ts_p st')) -> exists a b, q = midpoint 3 (ts_p st) [a; b]) /\
+  (forall i, i < length marked ->
+     exists m, nth (length (ts_t st) + i) (ts_t st') [] = bis_child (nth i perm []) m (nth 1 tpls [])).
+Proof.
+  intros tpls st marked perm Hp st'.
+  split; [exact (tet_iter_cells tpls st marked perm Hp)|].
+  split; [first [exact (tet_iter_parent_length tpls st marked perm Hp) | exact (tet_iter_parent_length tpls st marked perm)]|].
+  split; [first [exact (tet_iter_parent tpls st marked perm Hp) | exact (tet_iter_parent tpls st marked perm)]|].
+  split; [first [exact (tet_iter_old_vertices tpls st marked perm Hp) | exact (tet_iter_old_vertices tpls st marked perm)]|].
+  split; [first [exact (tet_iter_new_nodes tpls st marked perm Hp) | exact (tet_iter_new_nodes tpls st marked perm)]
+         | exact (tet_iter_appended_child tpls st marked perm Hp)].
+Qed.
+Print Assumptions C13_tet_sweep_invariants.
+
+Theorem C13_tet_worklist_from_incidence : forall st k,
+  In k (nonconforming st) <->
+  k < length (ts_t st) /\ exists a b m, In (a, b, m) (ts_sp st) /\ In a (nth k (ts_t st) []) /\ In b (nth k (ts_t st) []).
+Proof. exact nonconforming_spec. Qed.
+Print Assumptions C13_tet_worklist_from_incidence.
+
 (* full statement (NOT proved): for every tetrahedral mesh and marked set the loop of MeshTet1._adaptive
    terminates with a conforming mesh in which every marked cell is bisected. *)
 
@@ -171,6 +231,14 @@ Print Assumptions C13_line_unmarked_kept.
 Theorem C13_history_old_vertices : forall steps p, firstn (length p) (fold_left apply_rstep steps p) = p.
 Proof. exact history_old_vertices. Qed.
 Print Assumptions C13_history_old_vertices.
+
+(* second-order classes (after N1): MeshTri2._adaptive and MeshTet2._adaptive refine the vertex mesh as MeshTri1 / MeshTet1
+   WITH the subdomains and copy them back, so vertices, connectivity and subdomains of the result are those of the
+   linear class (all theorems above apply verbatim); refuted if a class goes through from_mesh alone *)
+Theorem C13_second_order_refines_as_linear : forall (M : Type) (lin drop : M -> M) (m : M),
+  refine_second gen_tri2_adaptive_via lin drop m = lin m /\ refine_second gen_tet2_adaptive_via lin drop m = lin m.
+Proof. intros M lin drop m. split; reflexivity. Qed.
+Print Assumptions C13_second_order_refines_as_linear.
 
 (* non-vacuity: two triangles sharing facet 2 (their slot-2 facet); marking cell 0 makes cell 0 red and the
    closure marks nothing else of cell 1 than the shared facet: cell 1 is green *)
